@@ -19,6 +19,7 @@ H = {
     'c13_keylist_queries': 'lists.rs', 'c13_keylist_insert': 'lists.rs', 'c13_keylist_export_and_clear': 'lists.rs',
     'c13_maplist_ops': 'lists.rs', 'c13_setlist_ops': 'lists.rs', 'c12_lists_clear_equals_new': 'lists.rs', 'c18_keylist_callback_state': 'lists.rs',
     'c18_seg_callback_state': 'seg_tree.rs',
+    'probe_insert_only': 'seg_tree.rs', 'probe_new_only': 'seg_tree.rs', 'probe_concrete_insert_symbolic_query': 'seg_tree.rs', 'probe_all_concrete_ranges': 'seg_tree.rs',
 }
 
 PLAN = {
@@ -57,6 +58,8 @@ def crate_dir():
 UNWIND_RULES = [('extend_with', 65), ('from_elem', 65), ('SegExpCollection', None), ('find_next_not_empty_chunk', 65),
                 ('range_to_place_mask', 34), ('range_to_intersect_mask', 34), ('insert_by_range', 10),
                 ('SegExpTreeIterator', 19), ('seg_tree', 6)]
+ONE_VALUE = {'c03_domain32_one_value', 'c16_purge_domain128_one_value', 'c14_new_some_iff_more_than_16_points', 'c15_tree_copies_per_insert',
+             'probe_concrete_insert_symbolic_query', 'probe_insert_only'}      # <= 8 stored copies: 9 outer iterations suffice
 DEFAULT_UNWIND = 5
 
 
@@ -78,6 +81,8 @@ def unwindset(h):
                 if b is None:
                     # SegExpCollection impl: clear (one iteration per place), iter/insert handled by other rules
                     b = 65 if 'clear' in fn else (10 if 'insert_by_range' in fn else DEFAULT_UNWIND)
+                if sub == 'SegExpTreeIterator' and h in ONE_VALUE:
+                    b = 10
                 bound = b
                 break
         items.append(f'{name}:{bound}')
@@ -192,7 +197,7 @@ def run(pid, tier, seed):
             lines.append(f'KNOWN-FINDING: property={pid} {known[c["key"]]["what"]}')
         else:
             new.append(c)
-    rdir = os.path.join(common.VERIF, 'evidence', 'replay')
+    rdir = os.path.join(common.evidence_dir(), 'replay')
     os.makedirs(rdir, exist_ok=True)
     for i, c in enumerate(new):
         path = os.path.join(rdir, f'{pid}-kani-{i}.json')
